@@ -8,8 +8,8 @@ CONSTANTS
   HasLock <- NoLock2
   Ops <- OpsJ
   MaxMut = 4
-  MaxSnap = 3
-  MaxDepth = 3
+  MaxSnap = 2
+  MaxDepth = 2
   FrameAddr <- FrJ
   NewAddrs <- NoNew
   XferTo <- NoXfer
